@@ -29,6 +29,8 @@ func runC08(c *core.Ctx) {
 	h.commitConfigTied("C08.4 commit-config")
 	c.Clause("C08.5 voter cache of the leader follows the configuration (E4)")
 	h.voterCacheFreshness("C08.5 voter-cache")
+	c.Clause("C08.6 configurations rebuilt on restart: newest configuration entry above the snapshot is Latest, next is Committed, snapshot label as fallback")
+	h.openStorageRebuild("C08.6 restart-rebuild")
 }
 
 func runC11(c *core.Ctx) {
